@@ -1,0 +1,75 @@
+//go:build verif
+
+package os
+
+// Contracts for govc, the contract verifier under /verif (see /verif/DESIGN.md).
+// This file contains comments only; it adds no code under any build tag.
+
+//@ type FS invariant fs: (fs.root == "" || VP(fs.root)) && !hasSuffix(fs.volumeName, "/") && !hasSuffix(fs.volumeName, "\\")
+
+//@ spec sepOK(sep rune) := sep == '/' || sep == '\\'
+//@ spec volOf(fs *FS, goos string) := ite(goos == "windows" && fs.volumeName == "", "C:", fs.volumeName)
+//@ spec rootOrDot(fs *FS) := ite(fs.root == "", ".", fs.root)
+//@ spec slashPath(fs *FS, n string) := ite(pjoin(rootOrDot(fs), n) == ".", "/", "/" + pjoin(rootOrDot(fs), n))
+//@ spec mapSep(sep rune, s string) := ite(sep == '/', s, replaceAll(s, "/", string(sep)))
+//@ spec unmapSep(sep rune, s string) := ite(sep == '/', s, replaceAll(s, string(sep), "/"))
+//@ spec osPathOf(fs *FS, goos string, sep rune, n string) := volOf(fs, goos) + mapSep(sep, slashPath(fs, n))
+
+//@ func fromSeparator(separator rune, path string) (r string)
+//@   inline
+//@ func toSeparator(separator rune, path string) (r string)
+//@   inline
+//@ func (fs *FS) getVolumeName(goos string) (r string)
+//@   inline
+
+//@ func joinSepPath(separator string, elem1 string, elem2 string) (r string)
+//@   props C09
+//@   ensures "clean" implies((separator == "/" || separator == "\\") && !hasSuffix(elem1, separator) && hasPrefix(elem2, separator) &&
+//@                     !hasPrefix(substr(elem2, 1, len(elem2)), separator), r == elem1 + elem2)
+//@   pure
+//@   nopanic
+
+//@ func (fs *FS) toOSPath(goos string, separator rune, op string, fsPath string) (r string, e *hackpadfs.PathError)
+//@   props C09 C04
+//@   requires fs != nil && sepOK(separator)
+//@   use vpBasic(fsPath)
+//@   use vpBasic(fs.root)
+//@   use vpSplit(fs.root, fsPath)
+//@   use replaceHead(pjoin(rootOrDot(fs), fsPath), "/", "\\")
+//@   use replaceNoHead(pjoin(rootOrDot(fs), fsPath), "/", "\\")
+//@   use replaceHead("", "/", "\\")
+//@   use replaceEmpty("/", "\\")
+//@   ensures "gate" implies(!VP(fsPath), r == "" && e != nil && e.Err == hackpadfs.ErrInvalid && e.Path == fsPath && e.Op == op)
+//@   ensures "join" implies(VP(fsPath) && (separator == '/' || !hasPrefix(pjoin(rootOrDot(fs), fsPath), "\\")), e == nil && r == osPathOf(fs, goos, separator, fsPath))
+//@   ensures "inside" implies(VP(fsPath) && separator == '/', r == osPathOf(fs, goos, separator, ".") || hasPrefix(r, osPathOf(fs, goos, separator, ".") + "/") ||
+//@                      (osPathOf(fs, goos, separator, ".") == volOf(fs, goos) + "/" && hasPrefix(r, volOf(fs, goos) + "/")))
+//@   nopanic
+
+//@ spec stripVol(fs *FS, goos string, sep rune, osPath string) := unmapSep(sep, trimPrefix(trimPrefix(osPath, volOf(fs, goos)), string(sep)))
+//@ spec winLemmas(p string) := replaceHead(p, "/", "\\") && replaceHead("", "/", "\\") && replaceEmpty("/", "\\") && replaceEmpty("\\", "/") && replaceInverse(p, "/", "\\")
+
+//@ func (fs *FS) fromOSPath(goos string, separator rune, getVolumeName func(string) string, op string, osPath string) (r string, err error)
+//@   props C09 C05
+//@   requires fs != nil && sepOK(separator) && getVolumeName != nil
+//@   use vpBasic(fs.root)
+//@   use vpSplit(fs.root, r)
+//@   ensures "errpath" implies(err != nil, r == "" && isPathError(err) && pathOf(err) == osPath && opOf(err) == op && errIs(err, hackpadfs.ErrInvalid))
+//@   ensures "volume" implies(err == nil, apply(getVolumeName, osPath) == volOf(fs, goos))
+//@   ensures "valid" implies(err == nil, VP(r))
+//@   ensures "inside" implies(err == nil && fs.root != "" && fs.root != ".", under(stripVol(fs, goos, separator, osPath), fs.root))
+//@   ensures "inverse" forall(n, string, implies(vpBasic(n) && vpSplit(fs.root, n) && vpBasic(pjoin(rootOrDot(fs), n)) && winLemmas(pjoin(rootOrDot(fs), n)) &&
+//@                       VP(n) && (separator == '/' || !contains(pjoin(rootOrDot(fs), n), "\\")) &&
+//@                       osPath == osPathOf(fs, goos, separator, n) && apply(getVolumeName, osPath) == volOf(fs, goos), err == nil && r == n))
+//@   nopanic
+
+//@ func (fs *FS) Sub(dir string) (r hackpadfs.FS, err error)
+//@   props C09 C07 C04 C05
+//@   requires fs != nil
+//@   use vpSplit(fs.root, dir)
+//@   ensures "gate" iff(err == nil, VP(dir))
+//@   ensures "errtype" implies(err != nil, r == nil && isPathError(err) && pathOf(err) == dir && errIs(err, hackpadfs.ErrInvalid))
+//@   ensures "root" implies(err == nil, isType(r, *FS) && fresh(r.(*FS)) && r.(*FS).root == pjoin(rootOrDot(fs), dir) && r.(*FS).volumeName == fs.volumeName)
+//@   ensures "compose" forall(n, string, implies(vpSplit(dir, n) && vpBasic(dir) && vpBasic(n) && err == nil && VP(n), forall(g, string, forall(s, int,
+//@                       osPathOf(r.(*FS), g, s, n) == osPathOf(fs, g, s, pjoin(dir, n))))))
+//@   ensures "inv" implies(err == nil, (r.(*FS).root == "" || VP(r.(*FS).root)) && !hasSuffix(r.(*FS).volumeName, "/") && !hasSuffix(r.(*FS).volumeName, "\\"))
+//@   nopanic
